@@ -16,7 +16,7 @@ from . import numeric as N
 from . import tables as TB
 
 P_KINDS = {'plain', 'list', 'dict', 'tuple', 'slice', 'element', 'P', 'callback-result', 'lambda', 'same'}
-LOGGER_METHODS = {'debug', 'info', 'warning', 'error', 'exception', 'critical', 'log', 'isEnabledFor', 'getEffectiveLevel'}
+LOGGER_METHODS = {'debug', 'info', 'isEnabledFor', 'getEffectiveLevel'}
 DATA_METHODS = TB.STR_METHODS | TB.LIST_METHODS | TB.DICT_METHODS | {
     'group', 'groups', 'groupdict', 'start', 'end', 'span', 'quantize', 'to_integral_value', 'normalize', 'as_tuple',
     'is_nan', 'is_finite', 'is_infinite', 'copy_abs', 'copy_negate', 'sqrt', 'ln', 'log10', 'exp', 'adjusted',
@@ -416,6 +416,29 @@ def check(chk: Check) -> None:
             chk.unrec(R3, q, fi.where, 'cannot classify `%s` (%s)' % (sorted(unk)[0][:80], ', '.join(sorted(set(ks.unknown))[:3])))
         else:
             chk.ok(R3, q, fi.where, 'every returned / stored value is plain, a child value, a scoped-names callable result or a program lambda')
+    # the scope stack holds the program's namespace: whatever its own methods put into a scope (a record for diagnostics, a
+    # back-reference) the program can read by name - any identifier the lexer accepts, dunder names included
+    from .c10 import SD as _SD
+    if _SD in F.classes:
+        for mn, mnode in sorted(F.cls(_SD).methods.items()):
+            fq = _SD + '.' + mn
+            if fq not in F.functions or not mnode.args.args:
+                continue
+            fi2 = F.func(fq)
+            ks2 = Kinds(F, {a.arg for a in mnode.args.args}, None, None, in_eval=False)
+            bad2 = {}
+            try:
+                paths2 = SymExec(F, fi2).run()
+            except AnalysisError:
+                continue
+            for p in paths2:
+                for e in p.events:
+                    if e.kind in ('store_sub', 'aug_sub') and (param_root_name(e.obj) is not None):
+                        kk = ks2.kind(e.value)
+                        if kk not in P_KINDS and kk != 'unknown':
+                            bad2['`%s`' % e.text()] = kk
+            if bad2:
+                chk.bad(R3, fq + ' fills a scope', fi2.where, '; '.join('%s stores a %s under a name programs can read' % (b, k) for b, k in sorted(bad2.items())))
 
     # --------------------------------------------------------------------- R5
     R5 = chk.rule('C02.R5', 'values a program can hold stay inert under every language operation: no table entry is a '
@@ -585,6 +608,14 @@ def _table_callees(F, f):
     return out
 
 
+def param_root_name(t):
+    """Name of the parameter an object term is rooted in (through attributes / subscripts / elements), else None."""
+    t = freeze(t)
+    while isinstance(t, tuple) and t and t[0] in ('attr', 'sub', 'elem', 'unpack', 'phi'):
+        t = t[3] if t[0] == 'phi' else t[1]
+    return t[1] if isinstance(t, tuple) and t[:1] == ('param',) else None
+
+
 def classify_callee(F, e: Event) -> Tuple[str, str]:
     """('pure'|'forbidden'|'trusted'|'dynamic'|'package'|'unknown', description)"""
     f = freeze(e.func)
@@ -679,6 +710,9 @@ def classify_callee(F, e: Event) -> Tuple[str, str]:
         if isinstance(recv, tuple) and recv[:1] == ('ref',) and recv[1] == 'modvar':
             if m in LOGGER_METHODS and common.is_module_logger(F, recv[2]):
                 return ('trusted', 'diagnostic channel of the host (logging.Logger.%s)' % m)
+            if m in common.LOUD_LOGGER_METHODS and common.is_module_logger(F, recv[2]):
+                return ('forbidden', 'logging.Logger.%s: with no handler configured (the stock state) records of level WARNING and above are written '
+                                     'to stderr by logging.lastResort, and exc_info / stack_info make the formatter read source files' % m)
             return ('pure' if m in DATA_METHODS else 'unknown', 'method .%s on module-level %s' % (m, recv[2]))
         if m in ('add', 'discard', 'remove', 'clear', 'update', 'append', 'extend', 'insert', 'pop', 'setdefault', 'popitem', 'sort', 'reverse',
                  'difference_update', 'intersection_update', 'symmetric_difference_update') and isinstance(recv, tuple) and (
